@@ -16,7 +16,7 @@ pub fn property() -> Property {
     Property {
         id: "C18",
         level: "exploration",
-        rule: "Bounded-exhaustive matrix: every charset exported by attohttpc::charsets (40) x its labels (canonical name + WHATWG aliases; plus the 6 labels of the WHATWG `replacement` decoder) in lower/upper/mixed case x media type {4 common ones, 3 of 53..71 characters} x Content-Type form {`t/s; charset=l`, `t/s;charset=l`, absent, unknown label, no parameter} x default-charset setting {unset, session, request, session overridden by request, session reset to None by the request} x API {text, text_with(other), text_utf8, text_reader with caller buffers 1,2,3,4,5,16,8192; a third of the reads through the reader half of Response::split()} x body kind {valid text in that encoding, random bytes, truncated multi-byte tail, lone surrogates / ISO-2022-JP escape garbage}; plus EVERY single cut offset and the bytewise script of 14 fixed multi-byte bodies (exhaustive; splits every multi-byte sequence at every inner offset) and seeded random cases incl. BOM-prefixed bodies. 'reader-plans': EVERY cycle of three caller buffer sizes in 0..=6 (a 0 = the rest is taken with read_to_end / read_to_string) on text_reader() over six bodies whose last character is cut short or that mix characters of every UTF-8 length. Oracle: one-shot encoding_rs decode_without_bom_handling with the charset the statement selects; for BOM-prefixed bodies only 'streaming/segmented == unsegmented through the same API'; no API may return Err. Non-trivial: body non-empty; distinct = hash(head, body, segmentation, API, defaults).",
+        rule: "Bounded-exhaustive matrix: every charset exported by attohttpc::charsets (40) x its labels (canonical name + WHATWG aliases; plus the 6 labels of the WHATWG `replacement` decoder) in lower/upper/mixed case x media type {4 common ones, 3 of 53..71 characters} x Content-Type form {`t/s; charset=l`, `t/s;charset=l`, absent, unknown label, no parameter} x default-charset setting {unset, session, request, session overridden by request, session reset to None by the request} x API {text, text_with(other), text_utf8, text_reader with caller buffers 1,2,3,4,5,16,8192; a third of the reads through the reader half of Response::split()} x body kind {valid text in that encoding, random bytes, truncated multi-byte tail, lone surrogates / ISO-2022-JP escape garbage}; plus EVERY single cut offset and the bytewise script of 14 fixed multi-byte bodies (exhaustive; splits every multi-byte sequence at every inner offset) and seeded random cases incl. BOM-prefixed bodies. 'reader-plans': EVERY cycle of three caller buffer sizes in 0..=6 (a 0 = the rest is taken with read_to_end / read_to_string) on text_reader() over six bodies whose last character is cut short or that mix characters of every UTF-8 length. 'constants': each of the 38 constants exported by attohttpc::charsets is pointer-identical to the encoding_rs encoding of its name and, handed to text_with() / default_charset(), decodes all 256 byte values like it. Oracle: one-shot encoding_rs decode_without_bom_handling with the charset the statement selects; for BOM-prefixed bodies only 'streaming/segmented == unsegmented through the same API'; no API may return Err. Non-trivial: body non-empty; distinct = hash(head, body, segmentation, API, defaults).",
         assumptions: &["quoted or second-position charset parameters are not generated", "encoding_rs is the decoding oracle (the statement defines decoding as lossy WHATWG decoding)"],
         min_nontrivial: |t| t.pick(5_000, 100_000),
         gens,
@@ -29,6 +29,7 @@ fn gens(tier: Tier) -> Vec<Gen> {
     vec![
         Gen { name: "matrix", count: matrix_count(), exhaustive: true, run: run_matrix },
         Gen { name: "everycut", count: everycut_count(), exhaustive: true, run: run_everycut },
+        Gen { name: "constants", count: 38, exhaustive: true, run: run_constants },
         Gen { name: "reader-plans", count: 343 * READER_PLAN_BODIES as u64, exhaustive: true, run: run_reader_plans },
         Gen { name: "random", count: tier.pick(3_000, 150_000), exhaustive: false, run: run_random },
     ]
@@ -44,6 +45,50 @@ pub const ALL: [Charset; 40] = [
     // two more so that the array has 40 entries: the list above has 38 distinct exports
     charsets::UTF_8, charsets::WINDOWS_1252,
 ];
+
+/// the same 38 encodings taken from the `encoding_rs` crate directly, in the order of `ALL` and with
+/// their WHATWG names: what each constant exported by `attohttpc::charsets` has to BE
+const ALL_REF: [(Charset, &str); 38] = [
+    (encoding_rs::BIG5, "Big5"), (encoding_rs::EUC_JP, "EUC-JP"), (encoding_rs::EUC_KR, "EUC-KR"), (encoding_rs::GB18030, "gb18030"), (encoding_rs::GBK, "GBK"), (encoding_rs::IBM866, "IBM866"),
+    (encoding_rs::ISO_2022_JP, "ISO-2022-JP"), (encoding_rs::ISO_8859_10, "ISO-8859-10"), (encoding_rs::ISO_8859_13, "ISO-8859-13"), (encoding_rs::ISO_8859_14, "ISO-8859-14"),
+    (encoding_rs::ISO_8859_15, "ISO-8859-15"), (encoding_rs::ISO_8859_16, "ISO-8859-16"), (encoding_rs::ISO_8859_2, "ISO-8859-2"), (encoding_rs::ISO_8859_3, "ISO-8859-3"),
+    (encoding_rs::ISO_8859_4, "ISO-8859-4"), (encoding_rs::ISO_8859_5, "ISO-8859-5"), (encoding_rs::ISO_8859_6, "ISO-8859-6"), (encoding_rs::ISO_8859_7, "ISO-8859-7"),
+    (encoding_rs::ISO_8859_8, "ISO-8859-8"), (encoding_rs::ISO_8859_8_I, "ISO-8859-8-I"), (encoding_rs::KOI8_R, "KOI8-R"), (encoding_rs::KOI8_U, "KOI8-U"),
+    (encoding_rs::MACINTOSH, "macintosh"), (encoding_rs::SHIFT_JIS, "Shift_JIS"), (encoding_rs::UTF_16BE, "UTF-16BE"), (encoding_rs::UTF_16LE, "UTF-16LE"), (encoding_rs::UTF_8, "UTF-8"),
+    (encoding_rs::WINDOWS_1250, "windows-1250"), (encoding_rs::WINDOWS_1251, "windows-1251"), (encoding_rs::WINDOWS_1252, "windows-1252"), (encoding_rs::WINDOWS_1253, "windows-1253"),
+    (encoding_rs::WINDOWS_1254, "windows-1254"), (encoding_rs::WINDOWS_1255, "windows-1255"), (encoding_rs::WINDOWS_1256, "windows-1256"), (encoding_rs::WINDOWS_1257, "windows-1257"),
+    (encoding_rs::WINDOWS_1258, "windows-1258"), (encoding_rs::WINDOWS_874, "windows-874"), (encoding_rs::X_MAC_CYRILLIC, "x-mac-cyrillic"),
+];
+
+/// every constant of `attohttpc::charsets` is the encoding its name says: handed to text_with() and
+/// as a request default it decodes a body of all 256 byte values (twice, so that two-byte encodings
+/// see pairs) exactly like the `encoding_rs` encoding of that name - the oracle everywhere else in
+/// this property takes the exported constant at its word
+fn run_constants(ctx: &mut Ctx, _rng: &mut Rng, index: u64) {
+    let i = index as usize % 38;
+    let exported = ALL[i];
+    let (reference, name) = ALL_REF[i];
+    if exported.name() != name || !std::ptr::eq(exported, reference) {
+        ctx.violation("exported-charset-constant-is-another-encoding", format!("attohttpc::charsets constant #{i} (expected {name}) is the encoding {:?}", exported.name()));
+    }
+    let mut body: Vec<u8> = (0..=255u8).collect();
+    body.extend((0..=255u8).rev());
+    let want = reference.decode_without_bom_handling(&body).0.into_owned();
+    let b = build_response("HTTP/1.1 200 OK", &[("Content-Type".into(), b"application/octet-stream".to_vec())], Framing::Length, &body, &[], &[Default::default()], b"");
+    for api in 0..2 {
+        let _w = World::single(Segmentation::Whole.apply(&b.wire));
+        let got = if api == 0 {
+            attohttpc::get("http://origin.test/c18").send().map_err(|e| format!("{e:?}")).and_then(|r| r.text_with(exported).map_err(|e| format!("{e:?}")))
+        } else {
+            attohttpc::get("http://origin.test/c18").default_charset(Some(exported)).send().map_err(|e| format!("{e:?}")).and_then(|r| r.text().map_err(|e| format!("{e:?}")))
+        };
+        if got.as_deref() != Ok(want.as_str()) {
+            ctx.violation("exported-charset-constant-decodes-as-another-encoding", format!("{} with the constant for {name}: the text differs from the {name} decoding of the same body (it equals the decoding as {})", ["text_with(constant)", "default_charset(constant) + text()"][api], got.as_ref().ok().and_then(|g| ALL_REF.iter().find(|(e, _)| e.decode_without_bom_handling(&body).0 == *g).map(|(_, n)| *n)).unwrap_or("none of the 38")));
+        }
+    }
+    ctx.count("exported_constants_checked", 1);
+    ctx.nontrivial(format!("const{i}").as_bytes());
+}
 
 /// WHATWG labels (a subset per encoding, the canonical name is always added)
 const ALIASES: &[(&str, &[&str])] = &[
